@@ -349,4 +349,88 @@ theorem selectMember_skip (pre post : List Member) (m : Member)
     simp only [List.cons_append, List.find?_cons, this]
     exact ih (fun y hy => hpre y (by simp [hy]))
 
+/-! ## exclusivity of the signature tests -/
+
+/-- byte constraints implied by a signature test -/
+def memReqs (off : Nat) : List Nat → List (Nat × Nat)
+  | [] => []
+  | v :: vs => (off, v) :: memReqs (off + 1) vs
+
+def reqs : Magic → List (Nat × Nat)
+  | .byteEq o v => [(o, v)]
+  | .memEq o vs => memReqs o vs
+  | .and a b => reqs a ++ reqs b
+  | .arcTest => [(0, 0x1a)]
+  | _ => []
+
+theorem memReqs_sound (b : Bytes) (off : Nat) (vs : List Nat) (h : memEqAt b off vs = true) :
+    ∀ p ∈ memReqs off vs, bAt b p.1 = p.2 := by
+  induction vs generalizing off with
+  | nil => intro p hp; simp [memReqs] at hp
+  | cons v vs ih =>
+    simp only [memEqAt, Bool.and_eq_true, beq_iff_eq] at h
+    intro p hp
+    simp only [memReqs, List.mem_cons] at hp
+    rcases hp with hp | hp
+    · subst hp; exact h.1
+    · exact ih (off + 1) h.2 p hp
+
+theorem reqs_sound (m : Magic) (b : Bytes) (h : evalMagic m b = true) : ∀ p ∈ reqs m, bAt b p.1 = p.2 := by
+  induction m with
+  | byteEq o v => intro p hp; simp [reqs] at hp; subst hp; simpa [evalMagic] using h
+  | memEq o vs => exact memReqs_sound b o vs (by simpa [evalMagic] using h)
+  | and a c iha ihc =>
+    simp only [evalMagic, Bool.and_eq_true] at h
+    intro p hp
+    simp only [reqs, List.mem_append] at hp
+    rcases hp with hp | hp
+    · exact iha h.1 p hp
+    · exact ihc h.2 p hp
+  | arcTest =>
+    intro p hp; simp [reqs] at hp; subst hp
+    simp only [evalMagic, arcTest, Bool.and_eq_true, beq_iff_eq] at h
+    exact h.1.1
+  | _ => intro p hp; simp [reqs] at hp
+
+def conflict (r1 r2 : List (Nat × Nat)) : Bool :=
+  r1.any fun p => r2.any fun q => p.1 == q.1 && p.2 != q.2
+
+theorem conflict_excl (m1 m2 : Magic) (b : Bytes) (hc : conflict (reqs m1) (reqs m2) = true)
+    (h1 : evalMagic m1 b = true) : evalMagic m2 b = false := by
+  cases h2 : evalMagic m2 b with
+  | false => rfl
+  | true =>
+    simp only [conflict, List.any_eq_true, Bool.and_eq_true, beq_iff_eq, bne_iff_ne] at hc
+    obtain ⟨p, hp, q, hq, hpq, hne⟩ := hc
+    have e1 := reqs_sound m1 b h1 p hp
+    have e2 := reqs_sound m2 b h2 q hq
+    rw [hpq] at e1
+    exact absurd (e1.symm.trans e2) hne
+
+/-- all signature tests except LHA's (which looks at bytes 2..6 and 20 only) are pairwise exclusive:
+    the dispatch order matters for LHA alone -/
+def nonLha : List (String × String × Magic) := depackerList.filter (fun e => e.1 != "lha")
+
+theorem tests_pairwise_exclusive :
+    ∀ e1 ∈ nonLha, ∀ e2 ∈ nonLha, e1.1 ≠ e2.1 → conflict (reqs e1.2.2) (reqs e2.2.2) = true := by decide
+
+
+theorem names_unique : ∀ e1 ∈ depackerList, ∀ e2 ∈ depackerList, e1.1 = e2.1 → e1 = e2 := by decide
+
+theorem find?_unique {α : Type} (p : α → Bool) (l : List α) (e : α) (he : e ∈ l) (hp : p e = true)
+    (hu : ∀ x ∈ l, p x = true → x = e) : l.find? p = some e := by
+  induction l with
+  | nil => simp at he
+  | cons x l ih =>
+    by_cases hx : p x = true
+    · have : x = e := hu x (by simp) hx
+      simp [List.find?_cons, hx, this]
+    · have hne : x ≠ e := fun h => hx (h ▸ hp)
+      have he' : e ∈ l := by
+        rcases List.mem_cons.mp he with h | h
+        · exact absurd h.symm hne
+        · exact h
+      simp only [List.find?_cons, hx]
+      exact ih he' (fun y hy => hu y (by simp [hy]))
+
 end Xmp.Container
